@@ -27,6 +27,8 @@ def run(ctx):
                 + '. non-trivial = distinct problems with at least one root derivation / returned tree')
     search_checks.suite(ctx, PID, ORACLES, GENS, ctx.budget(1200, 12000), max_n_enum=5)
     extra(ctx)
+    import cli_common
+    cli_common.cli_suite(ctx, ctx.budget(20, 200))      # the same through the command line itself
     common.conclude(ctx)
 
 
